@@ -8,7 +8,7 @@ from __future__ import annotations
 import ast
 
 from ..engine import Analysis
-from ..model import AnalysisError, FuncInfo, ClassInfo, dotted, norm, walk_own, parents, kwarg, is_within
+from ..model import AnalysisError, FuncInfo, ClassInfo, dotted, norm, walk_own, parents, kwarg, is_within, shape, alpha
 from ..sigcheck import func_signature, attrs_fields
 from ..report import Collector
 from . import prop
@@ -332,40 +332,63 @@ def check_c30(A: Analysis, col: Collector):
     wf = A.func("pydra.engine.workflow.Workflow.construct")
     col.scope(wf.qualname)
     src = {norm(n.targets[0]): n.value for n in walk_own(wf.node) if isinstance(n, ast.Assign) and isinstance(n.targets[0], ast.Name)}
-    want = {"non_lazy_hash": "hash_function(non_lazy_vals", "task_hash": "hash_function(type(task)", "non_lazy_keys": "frozenset(non_lazy_vals)"}
-    for var, frag in want.items():
-        if var in src and frag in norm(src[var]):
-            col.ok("C30.cache-key", f"cache key component {var} = {norm(src[var], 60)}", A.loc(src[var]))
-        else:
-            col.fail("C30.cache-key", wf.qualname, f"key-component:{var}", f"the construction-cache key component `{var}` is no longer `{frag}...)`", A.loc(wf.node))
-    nl = src.get("non_lazy_vals")
-    if nl is not None and "attrs_values(task)" in norm(nl) and "is_lazy" in norm(nl):
-        col.ok("C30.cache-key", "non_lazy_vals covers every non-lazy attribute value of the task passed in", A.loc(nl))
-    else:
-        col.fail("C30.cache-key", wf.qualname, "non_lazy_vals-coverage", "non_lazy_vals no longer ranges over attrs_values(task)", A.loc(wf.node))
-    # exact hit: both key set and value hash
-    hits = [n for n in walk_own(wf.node) if isinstance(n, ast.If) and "non_lazy_keys in cached_tasks" in norm(n.test)]
-    if hits and "non_lazy_hash in cached_tasks[non_lazy_keys]" in norm(hits[0].test) and " and " in norm(hits[0].test):
-        col.ok("C30.cache-key", "exact hit requires the same non-lazy key set and the same value hash", A.loc(hits[0]))
-    else:
-        col.fail("C30.cache-key", wf.qualname, "exact-hit-test", "the exact-hit test no longer checks both the key set and the value hash", A.loc(wf.node))
-    # store under the full key
+    task_param = wf.params()[1].arg if len(wf.params()) > 1 else "task"
     stores = [n for n in walk_own(wf.node) if isinstance(n, ast.Assign) and isinstance(n.targets[0], ast.Subscript) and "_constructed_cache" in norm(n.targets[0])]
-    if stores and norm(stores[0].targets[0]).endswith("[task_hash][non_lazy_keys][non_lazy_hash]"):
-        col.ok("C30.cache-key", "a constructed workflow is stored under [task_hash][non_lazy_keys][non_lazy_hash]", A.loc(stores[0]))
+    keys = []
+    if stores:
+        t = stores[0].targets[0]
+        while isinstance(t, ast.Subscript):
+            keys.insert(0, norm(t.slice))
+            t = t.value
+    if len(keys) != 3 or not all(k in src for k in keys):
+        col.fail("C30.cache-key", wf.qualname, f"store-key:{len(keys)}-components", "constructed workflows are not stored under a three-component key [type hash][non-lazy names][value hash]", A.loc(wf.node))
     else:
-        col.fail("C30.cache-key", wf.qualname, "store-key", "constructed workflows are not stored under the full key", A.loc(wf.node))
+        k_type, k_names, k_vals = keys
+        col.ok("C30.cache-key", f"a constructed workflow is stored under [{k_type}][{k_names}][{k_vals}]", A.loc(stores[0]))
+        vals_var = None
+        d = src[k_names]
+        if isinstance(d, ast.Call) and dotted(d.func) == "frozenset" and d.args and isinstance(d.args[0], ast.Name):
+            vals_var = d.args[0].id
+            col.ok("C30.cache-key", f"key component {k_names} = frozenset of the non-lazy input names", A.loc(d))
+        else:
+            col.fail("C30.cache-key", wf.qualname, "key-component:names", f"the name component of the construction-cache key is `{norm(d, 50)}`, not the frozenset of the non-lazy input names", A.loc(wf.node))
+        d = src[k_vals]
+        if isinstance(d, ast.Call) and any(q.endswith("hash_function") for q in A.callee_names(d, wf)) and d.args and vals_var and norm(d.args[0]) == vals_var:
+            col.ok("C30.cache-key", f"key component {k_vals} = hash_function(<non-lazy values>)", A.loc(d))
+        else:
+            col.fail("C30.cache-key", wf.qualname, "key-component:values", f"the value component of the construction-cache key is `{norm(d, 50)}`, not the hash of the non-lazy input values", A.loc(wf.node))
+        d = src[k_type]
+        if isinstance(d, ast.Call) and any(q.endswith("hash_function") for q in A.callee_names(d, wf)) and d.args and norm(d.args[0]) == f"type({task_param})":
+            col.ok("C30.cache-key", f"key component {k_type} = hash_function(type(task))", A.loc(d))
+        else:
+            col.fail("C30.cache-key", wf.qualname, "key-component:type", f"the type component of the construction-cache key is `{norm(d, 50)}`, not the hash of the task's type", A.loc(wf.node))
+        nl = src.get(vals_var) if vals_var else None
+        if nl is not None and f"attrs_values({task_param})" in norm(nl) and "is_lazy" in norm(nl):
+            col.ok("C30.cache-key", "the non-lazy values cover every non-lazy attribute value of the task passed in", A.loc(nl))
+        else:
+            col.fail("C30.cache-key", wf.qualname, "non_lazy_vals-coverage", "the hashed values no longer range over attrs_values(task)", A.loc(wf.node))
+        # exact hit: both key set and value hash
+        hit_ok = False
+        for n in walk_own(wf.node):
+            if isinstance(n, ast.If) and isinstance(n.test, ast.BoolOp) and isinstance(n.test.op, ast.And) and len(n.test.values) == 2:
+                a, b = n.test.values
+                if isinstance(a, ast.Compare) and isinstance(a.ops[0], ast.In) and norm(a.left) == k_names and isinstance(b, ast.Compare) and isinstance(b.ops[0], ast.In) and norm(b.left) == k_vals and norm(b.comparators[0]) == f"{norm(a.comparators[0])}[{k_names}]":
+                    if n.body and isinstance(n.body[0], ast.Return):
+                        hit_ok = True
+                        col.ok("C30.cache-key", "exact hit requires the same non-lazy key set and the same value hash", A.loc(n))
+        if not hit_ok:
+            col.fail("C30.cache-key", wf.qualname, "exact-hit-test", "the exact-hit test no longer checks both the key set and the value hash", A.loc(wf.node))
     # superset hit: deepcopy before setattr
-    sets = [c for c in A.calls(wf) if dotted(c.func) == "setattr" and c.args and norm(c.args[0]).startswith("wf.")]
-    A.anchor("setattr(wf.inputs, ...) on the superset-hit path", sets)
+    sets = [c for c in A.calls(wf) if dotted(c.func) == "setattr" and c.args and isinstance(c.args[0], ast.Attribute) and c.args[0].attr == "inputs" and isinstance(c.args[0].value, ast.Name)]
+    A.anchor("setattr(<wf>.inputs, ...) on the superset-hit path", sets)
     for c in sets:
-        var = norm(c.args[0]).split(".")[0]
+        var = c.args[0].value.id
         defs = [p for k, p in A.rs.local_defs(wf).get(var, []) if k == "assign"]
         if defs and all(isinstance(d, ast.Call) and "copy.deepcopy" in A.callee_names(d, wf) for d in defs):
             col.ok("C30.superset", "superset hit: the cached workflow is deep-copied before additional inputs are set on it", A.loc(c))
         else:
             col.fail("C30.superset", wf.qualname, "cached-workflow-mutated", "on the superset-hit path inputs are set on the cached workflow itself (no deepcopy): one construction's inputs leak into every later construction that hits the same entry", A.loc(c))
-    sub = [n for n in walk_own(wf.node) if isinstance(n, ast.If) and "issubset(non_lazy_keys)" in norm(n.test)]
+    sub = [n for n in walk_own(wf.node) if isinstance(n, ast.If) and isinstance(n.test, ast.Call) and isinstance(n.test.func, ast.Attribute) and n.test.func.attr == "issubset"]
     if sub:
         col.ok("C30.superset", "superset hit requires the cached key set to be a subset of the requested non-lazy names and the subset's value hash to match", A.loc(sub[0]))
     else:
@@ -388,8 +411,8 @@ def check_c32(A: Analysis, col: Collector):
     un = A.func("pydra.utils.general.unstructure")
     st = A.func("pydra.utils.general.structure")
     col.scope(un.qualname, st.qualname)
-    dicts = [n for n in walk_own(un.node) if isinstance(n, ast.Assign) and isinstance(n.value, ast.Dict) and norm(n.targets[0]) == "dct"]
-    A.anchor("dct = {...} in unstructure", dicts)
+    dicts = [n for n in walk_own(un.node) if isinstance(n, ast.Assign) and isinstance(n.value, ast.Dict) and any(isinstance(k, ast.Constant) and k.value == "type" for k in n.value.keys)]
+    A.anchor("the emitted dictionary literal (with a 'type' key) in unstructure", dicts)
     keys = []
     for k in dicts[0].value.keys:
         keys.append(k.value if isinstance(k, ast.Constant) else norm(k))
@@ -417,8 +440,13 @@ def check_c32(A: Analysis, col: Collector):
         else:
             col.ok("C32.keys", f"{q} accepts every emitted key {emitted}", A.loc(d.node))
     # per-field dicts: name moved to the key
-    txt = norm(dicts[0].value, 400)
-    if "d.pop('name'): d for d in input_dicts" in txt and "d.pop('name'): d for d in output_dicts" in txt:
+    keyed = 0
+    for k, v in zip(dicts[0].value.keys, dicts[0].value.values):
+        if isinstance(k, ast.Constant) and k.value in ("inputs", "outputs") and isinstance(v, ast.DictComp) and isinstance(v.generators[0].target, ast.Name):
+            x = v.generators[0].target.id
+            if norm(v.key) == f"{x}.pop('name')" and norm(v.value) == x:
+                keyed += 1
+    if keyed == 2:
         col.ok("C32.fields", "per-field dictionaries are keyed by the field name (popped from the attrs.asdict of the field)", A.loc(dicts[0]))
     else:
         col.fail("C32.fields", un.qualname, "field-dict-keying", "the per-field dictionaries are no longer keyed by the popped field name", A.loc(dicts[0]))
@@ -427,8 +455,14 @@ def check_c32(A: Analysis, col: Collector):
         col.ok("C32.fields", "field dictionaries come from attrs.asdict(field, ...) (attribute names of the field classes)", A.loc(asd[0]))
     else:
         col.fail("C32.fields", un.qualname, "fields-not-asdict", "field dictionaries are not produced by attrs.asdict", A.loc(un.node))
-    ca = [n for n in walk_own(un.node) if isinstance(n, ast.Assign) and norm(n.targets[0]) == "class_attrs" and isinstance(n.value, ast.DictComp)]
-    if any("getattr(task_class, '_' + a)" in norm(x.value) and "TASK_CLASS_ATTRS" in norm(x.value) for x in ca):
+    ca_ok = False
+    tc = un.params()[0].arg
+    for n in walk_own(un.node):
+        if isinstance(n, ast.DictComp) and isinstance(n.generators[0].target, ast.Name) and norm(n.generators[0].iter) == f"{tc}.TASK_CLASS_ATTRS":
+            x = n.generators[0].target.id
+            if norm(n.key) == x and norm(n.value) == f"getattr({tc}, '_' + {x})":
+                ca_ok = True
+    if ca_ok:
         col.ok("C32.keys", "class attributes are read from '_' + name for every name in TASK_CLASS_ATTRS", A.loc(un.node))
     else:
         col.fail("C32.keys", un.qualname, "class-attrs-source", "TASK_CLASS_ATTRS are no longer read from the '_'-prefixed class attributes", A.loc(un.node))
@@ -489,15 +523,17 @@ def check_c33(A: Analysis, col: Collector):
     loops = [n for n in walk_own(cw.node) if isinstance(n, ast.For)]
     A.anchor("loop over output fields in copyfile_workflow", loops)
     lp = loops[0]
-    created = [n for n in walk_own(cw.node) if isinstance(n, (ast.Assign, ast.AnnAssign)) and norm(n.targets[0] if isinstance(n, ast.Assign) else n.target) == "clashes_to_avoid"]
-    if created and all(not is_within(n, lp) for n in created) and all(n.lineno < lp.lineno for n in created) and norm(created[0].value) == "set()":
-        col.ok("C33.clashes", "one clashes_to_avoid = set() is created before the loop over output fields", A.loc(created[0]))
-    else:
-        col.fail("C33.clashes", cw.qualname, "clash-set-per-field", "the clash-avoidance set is (re)created inside the per-field loop or not at all: outputs with equal file names overwrite one another in the workflow directory", A.loc(lp))
+    calls0 = [c for c in A.calls(cw) if any(q.endswith("copy_nested_files") for q in A.callee_names(c, cw))]
+    setvar = None
+    for c in calls0:
+        v = kwarg(c, "clashes_to_avoid")
+        if isinstance(v, ast.Name):
+            setvar = v.id
+    created = [n for n in walk_own(cw.node) if isinstance(n, (ast.Assign, ast.AnnAssign)) and setvar and norm(n.targets[0] if isinstance(n, ast.Assign) else n.target) == setvar]
     calls = [c for c in A.calls(cw) if any(q.endswith("copy_nested_files") for q in A.callee_names(c, cw))]
     A.anchor("copy_nested_files call in copyfile_workflow", calls)
     for c in calls:
-        if norm(kwarg(c, "clashes_to_avoid")) == "clashes_to_avoid":
+        if setvar and norm(kwarg(c, "clashes_to_avoid")) == setvar:
             col.ok("C33.clashes", "every copy_nested_files call receives the shared set", A.loc(c))
         else:
             col.fail("C33.clashes", cw.qualname, "clash-set-not-passed", "copy_nested_files is called without the shared clash set", A.loc(c))
@@ -505,12 +541,13 @@ def check_c33(A: Analysis, col: Collector):
             col.ok("C33.clashes", "workflow outputs are collected with mode=hardlink_or_copy (content preserved, never a symlink)", A.loc(c))
         else:
             col.fail("C33.clashes", cw.qualname, f"collect-mode:{norm(kwarg(c, 'mode'), 30)}", f"workflow outputs are collected with mode={norm(kwarg(c, 'mode'), 30)}", A.loc(c))
-        if len(c.args) >= 2 and norm(c.args[1]) == "wf_path" and is_within(c, lp):
+        if len(c.args) >= 2 and norm(c.args[1]) == cw.params()[0].arg and is_within(c, lp):
             col.ok("C33.clashes", "files are copied into the workflow's directory for every output field", A.loc(c))
         else:
             col.fail("C33.clashes", cw.qualname, "collect-destination", "files are not copied into wf_path for every field", A.loc(c))
     sets = [c for c in A.calls(cw) if dotted(c.func) == "setattr" and is_within(c, lp)]
-    if sets and norm(sets[0].args[2]) == "new_value":
+    copied_vars = {n.targets[0].id for n in walk_own(cw.node) if isinstance(n, ast.Assign) and isinstance(n.targets[0], ast.Name) and n.value in calls}
+    if sets and len(sets[0].args) == 3 and norm(sets[0].args[2]) in copied_vars:
         col.ok("C33.clashes", "the copied value replaces the field value (setattr(outputs, field.name, new_value))", A.loc(sets[0]))
     else:
         col.fail("C33.clashes", cw.qualname, "copied-value-not-stored", "the copied value is not written back to the outputs", A.loc(lp))
@@ -537,20 +574,22 @@ def check_c34(A: Analysis, col: Collector):
     cs = [c for c in A.calls(ji) if any(q.endswith("copy_nested_files") for q in A.callee_names(c, ji))]
     A.anchor("copy_nested_files call in Job.inputs", cs)
     c = cs[0]
-    want = {"dest_dir": "self.cache_dir", "mode": "fld.copy_mode", "collation": "fld.copy_collation", "value": "value"}
+    loops = [p for p in parents(c) if isinstance(p, ast.For)]
+    fv = loops[0].target.id if loops and isinstance(loops[0].target, ast.Name) else "fld"
+    val_vars = {n.targets[0].id for n in walk_own(ji.node) if isinstance(n, ast.Assign) and isinstance(n.targets[0], ast.Name) and isinstance(n.value, ast.Subscript) and norm(n.value.value) == "self._inputs"}
+    want = {"dest_dir": "self.cache_dir", "mode": f"{fv}.copy_mode", "collation": f"{fv}.copy_collation", "value": sorted(val_vars)[0] if val_vars else "value"}
     for k, v in want.items():
         got = norm(kwarg(c, k))
         if got == v:
             col.ok("C34.staging", f"Job.inputs: copy_nested_files({k}={v})", A.loc(c))
         else:
             col.fail("C34.staging", ji.qualname, f"staging-arg:{k}={got}", f"files are staged with {k}={got or 'missing'} instead of {v}", A.loc(c))
-    loops = [p for p in parents(c) if isinstance(p, ast.For)]
     if loops and "get_fields(self.task)" in norm(loops[0].iter):
         col.ok("C34.staging", "every field of the task is considered for staging", A.loc(loops[0]))
     else:
         col.fail("C34.staging", ji.qualname, "not-all-fields-staged", "staging does not iterate all fields of the task", A.loc(c))
     guard = [p for p in parents(c) if isinstance(p, ast.If)]
-    if guard and "contains_type(FileSet, fld.type)" in norm(guard[0].test):
+    if guard and f"contains_type(FileSet, {fv}.type)" in norm(guard[0].test):
         col.ok("C34.staging", "staging applies to fields whose type contains FileSet", A.loc(guard[0]))
     else:
         col.fail("C34.staging", ji.qualname, "staging-guard", "the staging guard no longer tests TypeParser.contains_type(FileSet, fld.type)", A.loc(c))
@@ -560,7 +599,8 @@ def check_c34(A: Analysis, col: Collector):
     else:
         col.fail("C34.staging", ji.qualname, "inputs-not-memoised", "Job.inputs restages the files on every access", A.loc(ji.node))
     upd = [k for k in A.calls(ji) if any(q.endswith("template_update") for q in A.callee_names(k, ji))]
-    if upd and norm(kwarg(upd[0], "map_copyfiles")) == "map_copyfiles":
+    staged_maps = {t.value.id for n in walk_own(ji.node) if isinstance(n, ast.Assign) for t in n.targets if isinstance(t, ast.Subscript) and isinstance(t.value, ast.Name) and isinstance(n.value, ast.Name)}
+    if upd and isinstance(kwarg(upd[0], "map_copyfiles"), ast.Name) and kwarg(upd[0], "map_copyfiles").id in staged_maps:
         col.ok("C34.staging", "the staged values replace the originals in the job's inputs (map_copyfiles -> template_update -> self._inputs.update)", A.loc(upd[0]))
     else:
         col.fail("C34.staging", ji.qualname, "staged-values-not-used", "the staged copies are not written into the job's inputs", A.loc(ji.node))
@@ -583,62 +623,76 @@ def check_c37(A: Analysis, col: Collector):
     g = "pydra.engine.graph.DiGraph"
     srt = A.func(f"{g}._sorting")
     col.scope(srt.qualname)
-    apps = [c for c in A.calls(srt) if isinstance(c.func, ast.Attribute) and c.func.attr == "append"]
+    ps = [p.arg for p in srt.params()][1:]  # (unsorted list, working predecessor map)
+    loops = [n for n in walk_own(srt.node) if isinstance(n, ast.For) and isinstance(n.target, ast.Name)]
     ok_sorted = ok_rest = False
-    for c in apps:
-        cond = None
-        branch = None
-        for p in parents(c):
-            if isinstance(p, ast.If):
-                cond = p
-                branch = "T" if any(is_within(c, s) for s in p.body) else "F"
-                break
-        if cond is None:
-            continue
-        t = norm(cond.test)
-        if norm(c.func.value) == "sorted_part":
-            if t == "not predecessors[nd.name]" and branch == "T":
-                ok_sorted = True
-        else:
-            if t == "not predecessors[nd.name]" and branch == "F":
-                ok_rest = True
+    emitted_list = rest_list = None
+    if loops and len(ps) >= 2 and norm(loops[0].iter) == ps[0]:
+        col.ok("C37.emit", "a pass visits every unsorted node once", A.loc(loops[0]))
+        v = loops[0].target.id
+        guard = f"not {ps[1]}[{v}.name]"
+        for st in loops[0].body:
+            if isinstance(st, ast.If) and norm(st.test) == guard:
+                a_t = [c for b in st.body for c in ast.walk(b) if isinstance(c, ast.Call) and isinstance(c.func, ast.Attribute) and c.func.attr == "append" and c.args and norm(c.args[0]) == v]
+                a_f = [c for b in st.orelse for c in ast.walk(b) if isinstance(c, ast.Call) and isinstance(c.func, ast.Attribute) and c.func.attr == "append" and c.args and norm(c.args[0]) == v]
+                if a_t:
+                    emitted_list = norm(a_t[0].func.value)
+                if a_f:
+                    rest_list = norm(a_f[0].func.value)
+        rets = [n for n in walk_own(srt.node) if isinstance(n, ast.Return) and isinstance(n.value, ast.Tuple) and len(n.value.elts) == 2]
+        if rets and emitted_list and norm(rets[0].value.elts[0]) == emitted_list:
+            # no other append to the emitted list
+            others = [c for c in A.calls(srt) if isinstance(c.func, ast.Attribute) and c.func.attr in ("append", "extend", "insert") and norm(c.func.value) == emitted_list]
+            ok_sorted = len(others) == 1
+        if rets and rest_list and norm(rets[0].value.elts[1]) == rest_list and rest_list != emitted_list:
+            ok_rest = True
+    else:
+        col.fail("C37.emit", srt.qualname, "pass-iteration", "a pass does not iterate the whole unsorted list", A.loc(srt.node))
     if ok_sorted:
-        col.ok("C37.emit", "_sorting appends to sorted_part only under `not predecessors[nd.name]`", A.loc(srt.node))
+        col.ok("C37.emit", "_sorting appends a node to the emitted part only under `not <working predecessors>[node.name]`", A.loc(srt.node))
     else:
         col.fail("C37.emit", srt.qualname, "emission-guard", "_sorting emits a node that may still have unsorted predecessors", A.loc(srt.node))
     if ok_rest:
         col.ok("C37.emit", "every node not emitted in a pass is kept in the remaining list (else-branch of the same test)", A.loc(srt.node))
     else:
         col.fail("C37.emit", srt.qualname, "node-dropped-in-pass", "a node that is not emitted is not kept for the next pass", A.loc(srt.node))
-    loops = [n for n in walk_own(srt.node) if isinstance(n, ast.For)]
-    if loops and norm(loops[0].iter) == "notsorted_list":
-        col.ok("C37.emit", "a pass visits every unsorted node once", A.loc(loops[0]))
-    else:
-        col.fail("C37.emit", srt.qualname, "pass-iteration", "a pass does not iterate the whole unsorted list", A.loc(srt.node))
     so = A.func(f"{g}.sorting")
     col.scope(so.qualname)
-    cp = [n for n in walk_own(so.node) if isinstance(n, ast.Assign) and norm(n.targets[0]) == "predecessors"]
-    if cp and "copy(val)" in norm(cp[0].value) and "self.predecessors.items()" in norm(cp[0].value):
+    # the call of _sorting: (emitted, remaining) = self._sorting(remaining, working)
+    calls = [n for n in walk_own(so.node) if isinstance(n, ast.Assign) and isinstance(n.targets[0], ast.Tuple) and isinstance(n.value, ast.Call) and isinstance(n.value.func, ast.Attribute) and n.value.func.attr == "_sorting"]
+    if not calls or len(calls[0].value.args) != 2:
+        raise AnalysisError("DiGraph.sorting: call `(emitted, remaining) = self._sorting(remaining, working)` not found")
+    emitted = norm(calls[0].targets[0].elts[0])
+    working = norm(calls[0].value.args[1])
+    cp = [n for n in walk_own(so.node) if isinstance(n, ast.Assign) and norm(n.targets[0]) == working]
+    good_copy = False
+    if cp and isinstance(cp[0].value, ast.DictComp):
+        dc = cp[0].value
+        if norm(dc.generators[0].iter) == "self.predecessors.items()" and isinstance(dc.value, ast.Call) and (dotted(dc.value.func) or "") in ("copy", "list", "copy.copy") :
+            good_copy = True
+    if good_copy:
         col.ok("C37.remove", "sorting works on a per-key copy of self.predecessors (the graph's own map is not consumed)", A.loc(cp[0]))
     else:
         col.fail("C37.remove", so.qualname, "sorts-on-live-predecessor-map", "sorting mutates self.predecessors itself: later readiness tests see nodes without predecessors", A.loc(so.node))
-    rem = [c for c in A.calls(so) if isinstance(c.func, ast.Attribute) and c.func.attr == "remove" and "predecessors[" in norm(c.func.value)]
+    rem = [c for c in A.calls(so) if isinstance(c.func, ast.Attribute) and c.func.attr == "remove" and isinstance(c.func.value, ast.Subscript) and norm(c.func.value.value) == working]
     good = 0
     for c in rem:
         fl = [p for p in parents(c) if isinstance(p, ast.For)]
-        if len(fl) >= 2 and norm(fl[0].iter) == "self.successors[nd_out.name]" and norm(fl[1].iter) in ("sorted_part", "self._node_wip") and norm(c.func.value) == "predecessors[nd_in.name]" and norm(c.args[0]) == "nd_out":
-            good += 1
-            col.ok("C37.remove", f"an emitted node (from {norm(fl[1].iter)}) is removed from the working predecessors of exactly its successors", A.loc(c))
-        else:
-            col.fail("C37.remove", so.qualname, f"predecessor-removal:{norm(c, 40)}", f"`{norm(c, 60)}` removes predecessor entries for nodes that were not emitted", A.loc(c))
+        if len(fl) >= 2 and isinstance(fl[0].target, ast.Name) and isinstance(fl[1].target, ast.Name):
+            i_, o_ = fl[0].target.id, fl[1].target.id
+            if norm(fl[0].iter) == f"self.successors[{o_}.name]" and norm(fl[1].iter) in (emitted, "self._node_wip") and norm(c.func.value.slice) == f"{i_}.name" and norm(c.args[0]) == o_:
+                good += 1
+                col.ok("C37.remove", f"an emitted node (from {'the pass result' if norm(fl[1].iter) == emitted else 'self._node_wip'}) is removed from the working predecessors of exactly its successors", A.loc(c))
+                continue
+        col.fail("C37.remove", so.qualname, f"predecessor-removal:{shape(c, 40)}", f"`{norm(c, 60)}` removes predecessor entries for nodes that were not emitted", A.loc(c))
     if good < 2:
         col.fail("C37.remove", so.qualname, f"removal-sites:{good}", "sorting no longer removes emitted nodes (and _node_wip) from the working predecessor map", A.loc(so.node))
-    acc = [n for n in walk_own(so.node) if isinstance(n, ast.AugAssign) and norm(n.target) == "self._sorted_nodes" and norm(n.value) == "sorted_part"]
+    acc = [n for n in walk_own(so.node) if isinstance(n, ast.AugAssign) and norm(n.target) == "self._sorted_nodes" and norm(n.value) == emitted]
     if acc:
         col.ok("C37.emit", "the sorted list is the concatenation of the passes' emitted parts", A.loc(acc[0]))
     else:
         col.fail("C37.emit", so.qualname, "sorted-list-accumulation", "the emitted parts are no longer appended to _sorted_nodes", A.loc(so.node))
-    stall = [n for n in walk_own(so.node) if isinstance(n, ast.If) and norm(n.test) == "not sorted_part" and any(isinstance(k, ast.Raise) for k in n.body)]
+    stall = [n for n in walk_own(so.node) if isinstance(n, ast.If) and norm(n.test) in (f"not {emitted}", f"len({emitted}) == 0") and any(isinstance(k, ast.Raise) for k in n.body)]
     if stall:
         col.ok("C37.emit", "a pass that emits nothing raises (cycle)", A.loc(stall[0]))
     else:
